@@ -4,7 +4,7 @@
 Mirrors `metador_core/schema/plugins.py` (`PluginRef.__eq__/__ge__/__hash__/supports`,
 the operators `functools.total_ordering` derives from `__ge__`),
 `metador_core/plugin/interface.py` (`PluginGroup._add_ep`, `versions`, `resolve`,
-`__contains__`), `metador_core/plugin/util.py` (`register_in_group`) and
+`__contains__`, `keys`, `get`, `__getitem__`), `metador_core/plugin/util.py` (`register_in_group`) and
 `metador_core/plugin/types.py` (`to_ep_name`, `from_ep_name`, name / semver grammars).
 
 Import-free: only core Lean.
@@ -125,6 +125,21 @@ def contains (grp : String) (t : Table) (n : String) (v : Option Ver) : Bool :=
   | [], _ => false
   | _ :: _, none => true
   | l, some v => l.any (fun r => eq ⟨grp, n, v⟩ r)
+
+/-- `PluginGroup.keys()`: `for pgs in self._VERSIONS.values(): yield from pgs` — all
+references, name by name in dict (first registration) order. -/
+def Table.keys : Table → List Ref
+  | [] => []
+  | (_, l) :: t => l ++ Table.keys t
+
+/-- `PluginGroup.get(name, version)` / `_get_unsafe`: the plugin that `resolve` picks
+(`none` = `KeyError` inside, `None` outside). The loaded class is identified by its reference. -/
+def getPlugin (grp : String) (t : Table) (n : String) (v : Option Ver) : Option Ref :=
+  resolve grp t n v
+
+/-- `PluginGroup.__getitem__`: `KeyError` (outer `none`) unless `key in self`, else `get(key)`. -/
+def getItem (grp : String) (t : Table) (n : String) (v : Option Ver) : Option (Option Ref) :=
+  if contains grp t n v then some (getPlugin grp t n v) else none
 
 /-! ## Entry-point names -/
 
